@@ -237,6 +237,15 @@ def evaluate(ctx, deep):
                         eval_case(ctx, n, a, pattern, layout, perm, classical, "distance_table")
 
 
+    # mid-size classical patterns (n + 1 qubits): pattern bits beyond the first byte, every input form of the pattern
+    for n in ((9, 10, 11) if deep else (9, 10)):
+        N = 2 ** n
+        for pint in sorted(set([N - 1, N >> 1, (N >> 1) | 1] + [int(x) for x in rng.integers(N >> 2, N, 2)])):
+            pattern = [(pint >> j) & 1 for j in range(n)]
+            for fam in ("complex", "sparse") if "sparse" in FAMILIES else ("complex",):
+                run_one(ctx, n, fam, pattern, LAYOUTS_C[(pint + n) % len(LAYOUTS_C)], True)
+
+
 def replay(ctx, case):
     return eval_case(ctx, case["n"], dec(case["memory"]), case["pattern"], case["layout"], case["perm"],
                      case["classical"], case.get("family", "replay"))
